@@ -197,6 +197,15 @@ func checkTopology(m *Model, events []sched.Event, evicted map[string]bool, cycl
 	timesPlaced := map[string]int{} // successful binds + nominations of a pod in this cycle
 	finalAction := map[string]string{}
 	groupsTouched := map[string]bool{}
+	// a pod whose eviction was decided in this cycle but whose Evict call failed: the decision that placed the rest of
+	// its workload counted on it leaving. The property quantifies over cluster states, not over failing API calls, so
+	// such a pod is not a reference point for "already active pods"
+	evictFailed := map[string]bool{}
+	for i := range events {
+		if e := &events[i]; e.Kind == "evict" && !OK(e) {
+			evictFailed[e.Key()] = true
+		}
+	}
 	for i := range events {
 		e := &events[i]
 		if (e.Kind == "bind" || e.Kind == "pipeline") && OK(e) {
@@ -266,6 +275,10 @@ func checkTopology(m *Model, events []sched.Event, evicted map[string]bool, cycl
 					placedPods = append(placedPods, p.Name)
 					placedActions = append(placedActions, finalAction[k])
 				} else if m.Active(p) && !evicted[k] {
+					if evictFailed[k] {
+						st.Inc("topology_active_pod_with_failed_eviction_not_a_reference")
+						continue
+					}
 					activeNodes = append(activeNodes, m.NodeOf(p))
 				}
 			}
